@@ -86,7 +86,7 @@ def run(ctx, chk):
         def is_read(nm):
             return common.is_clock_read(nm)
 
-        def cfg_ok(body, depth=0):
+        def cfg_ok(body, depth=0, param_runs_query=False):
             reads, queries = [], []
             for bb, t, fn in common.user_calls(body):
                 if not fn:
@@ -95,18 +95,23 @@ def run(ctx, chk):
                 nbs = common.callee_bodies(fb, fn)      # (a trait method on a type parameter: every workspace impl)
                 nb = nbs[0] if len(nbs) == 1 else None
                 if is_read(nm) or (nbs and all(is_read(x.path) or common.reaches_call(fb, x, is_read) for x in nbs)):
-                    reads.append((bb, nb))
-                if is_chrony_query(fn['path']) or is_chrony_query(nm) or any(common.reaches_call(fb, x, is_chrony_query) for x in nbs):
-                    queries.append((bb, nb))
+                    reads.append((bb, nb, False))
+                # a closure that runs the query, handed to a helper: the helper's call of its callable parameter is the query
+                via_closure = any(common.reaches_call(fb, x, is_chrony_query) for x in common.closure_args(fb, body, t))
+                if is_chrony_query(fn['path']) or is_chrony_query(nm) or any(common.reaches_call(fb, x, is_chrony_query) for x in nbs) or via_closure or \
+                        (param_runs_query and fn['path'] in ('std::ops::FnOnce::call_once', 'std::ops::FnMut::call_mut', 'std::ops::Fn::call') and fb.body(nm) is None):
+                    queries.append((bb, nb, via_closure))
             chk.analysed['call_sites'] += len(reads) + len(queries)
             ok_all = True
-            for q, qb in queries:
+            for q, qb, via in queries:
                 n_q[0] += 1
-                dom = [r for r, _ in reads if r != q and body.dominates(r, q)]
+                dom = [r for r, _, _ in reads if r != q and body.dominates(r, q)]
                 if dom:
                     continue
-                if any(r == q for r, _ in reads) and qb is not None and depth < 4 and cfg_ok(qb, depth + 1)[0]:
-                    continue
+                if any(r == q for r, _, _ in reads) and qb is not None and depth < 4:
+                    ok_in, qs_in = cfg_ok(qb, depth + 1, param_runs_query=via)
+                    if ok_in and (qs_in or not via):
+                        continue
                 ok_all = False
                 chk.ob('C12.O1', 'poll:cfg-read-dominates-query', False, body.where(q), 'no clock read dominates the chrony query in %s' % body.path)
             return ok_all, queries
